@@ -40,7 +40,14 @@ def variants(quick, rng):
     # the secrets travel inside the capture (a decryption secrets block at any legal position, also before the first interface description)
     dsb = [dict(fmt="pcapng", le=le, tsresol=r, tsoffset=None, extra=e, where="spread", pre=False, shb=False, dsb=w)
            for le in (True, False) for r in (None, 9) for e in ((), ("nrb", "isb")) for w in ("pre", "start", "mid", "end")]
-    return vs + allv + (two if not quick else rng.sample(two, 8)) + (dsb if not quick else rng.sample(dsb, 10))
+    # obsolete Packet Blocks (type 2: 16-bit interface id + 16-bit drops count) instead of Enhanced Packet Blocks, one and two interfaces
+    pbs = [dict(fmt="pcapng", le=le, tsresol=r1, tsoffset=o1, extra=(), where="start", pre=False, shb=False, pb=drops, **({"second_if": [r2, o2]} if r2 != "-" else {}))
+           for le in (True, False) for drops in (0, 1, 7) for r1, o1, r2, o2 in ((None, None, "-", None), (9, None, None, None), (3, 3600, 9, 0), (None, None, 6, 3600))]
+    # the secrets text inside a secrets block need not end with a line feed, nor have a length that is a multiple of four
+    raw = [dict(fmt="pcapng", le=le, tsresol=None, tsoffset=None, extra=(), where="start", pre=False, shb=False, dsb=w, dsbtrim=k)
+           for le in (True, False) for w in ("start", "end") for k in (0, 1, 2, 3)]
+    return vs + allv + (two if not quick else rng.sample(two, 8)) + (dsb if not quick else rng.sample(dsb, 10)) + \
+        (pbs if not quick else rng.sample(pbs, 8)) + (raw if not quick else rng.sample(raw, 6))
 
 
 def render(pkts, v, kl=""):
@@ -50,10 +57,12 @@ def render(pkts, v, kl=""):
     pos = {"start": [0] * 3, "mid": [n // 2] * 3, "end": [n] * 3, "spread": [1, n // 2, n]}[v["where"]]
     extra = [(pos[i], k) for i, k in enumerate(v["extra"])]
     w = v.get("dsb")
+    if "dsbtrim" in v:                  # no final line feed; a leading comment of k characters moves the length through the residues mod 4
+        kl = "#" * v["dsbtrim"] + ("\n" if v["dsbtrim"] else "") + kl.rstrip("\n")
     pre = (("nrb",) if v["pre"] and v["extra"] else ()) + ((("dsb", kl.encode()),) if w == "pre" else ())
     return pcapng_bytes(pkts, le=v["le"], tsresol=v["tsresol"], tsoffset=v["tsoffset"], extra=extra,
                         dsbs=[({"start": 0, "mid": n // 2, "end": n}[w], kl.encode())] if w in ("start", "mid", "end") else (),
-                        pre_idb=pre, shb_opts=v["shb"],
+                        pre_idb=pre, shb_opts=v["shb"], packet_block=v.get("pb"),
                         second_if=tuple(v["second_if"]) if v.get("second_if") else None), False
 
 
